@@ -1,4 +1,381 @@
-//! stream `names` — not implemented yet
-pub fn handle(_args: &[&str]) -> Option<String> {
+//! stream `names` (C09): the name-mangling functions of both layers called on the real code, and
+//! the whole pipeline text -> Tokenizer -> Model::try_from -> resolve -> to_rust -> RustCodeGenerator
+use crate::util::*;
+use asn1rs::model::asn::MultiModuleResolver;
+use asn1rs::model::generate::rust::RustCodeGenerator;
+use asn1rs::model::generate::Generator;
+use asn1rs::model::parse::Tokenizer;
+use asn1rs::model::rust as layer_a;
+use asn1rs::model::Model;
+use std::panic::{catch_unwind, AssertUnwindSafe};
+
+/// The crate under test reports some conditions with `println!` ("Ignoring ValueReference ..",
+/// "parse_args failed ..", "Errör: .."); stdout is the protocol channel of this harness, so file
+/// descriptor 1 points to /dev/null while the real code runs (restored on unwind as well).
+pub fn quiet<T>(f: impl FnOnce() -> T) -> T {
+    use std::io::Write;
+    use std::os::fd::AsRawFd;
+    extern "C" {
+        fn dup(fd: i32) -> i32;
+        fn dup2(a: i32, b: i32) -> i32;
+        fn close(fd: i32) -> i32;
+    }
+    struct Restore(i32);
+    impl Drop for Restore {
+        fn drop(&mut self) {
+            let _ = std::io::stdout().flush();
+            unsafe {
+                dup2(self.0, 1);
+                close(self.0);
+            }
+        }
+    }
+    let _ = std::io::stdout().flush();
+    let null = match std::fs::OpenOptions::new().write(true).open("/dev/null") {
+        Ok(f) => f,
+        Err(_) => return f(),
+    };
+    let saved = unsafe { dup(1) };
+    if saved < 0 {
+        return f();
+    }
+    unsafe {
+        dup2(null.as_raw_fd(), 1);
+    }
+    let _restore = Restore(saved);
+    f()
+}
+
+fn text(h: &str) -> Option<String> {
+    String::from_utf8(unhex(h)?).ok()
+}
+
+fn okhex(s: String) -> String {
+    format!("ok {}", hex(s.as_bytes()))
+}
+
+/// `err <class>` / `panic <stage>` of the pipeline
+pub enum Stop {
+    Parse,
+    Resolve,
+    PanicFront,
+    PanicGen,
+}
+
+impl Stop {
+    pub fn answer(&self) -> String {
+        match self {
+            Stop::Parse => "err parse".to_string(),
+            Stop::Resolve => "err resolve".to_string(),
+            Stop::PanicFront => "panic front".to_string(),
+            Stop::PanicGen => "panic gen".to_string(),
+        }
+    }
+}
+
+/// One or several modules (the way `asn1rs::converter::Converter` and `asn_to_rust!` do it):
+/// returns (file name, generated text) per module, in input order.
+pub fn pipeline(texts: &[String]) -> Result<Vec<(String, String)>, Stop> {
+    quiet(|| pipeline_loud(texts))
+}
+
+fn pipeline_loud(texts: &[String]) -> Result<Vec<(String, String)>, Stop> {
+    let front = catch_unwind(AssertUnwindSafe(|| {
+        if texts.len() == 1 {
+            // proc_macro::inline::asn_to_rust
+            let tokens = Tokenizer.parse(&texts[0]);
+            let model = Model::try_from(tokens).map_err(|_| Stop::Parse)?;
+            let model = model.try_resolve().map_err(|_| Stop::Resolve)?;
+            Ok(vec![model])
+        } else {
+            // converter.rs
+            let mut resolver = MultiModuleResolver::default();
+            for t in texts {
+                let tokens = Tokenizer.parse(t);
+                resolver.push(Model::try_from(tokens).map_err(|_| Stop::Parse)?);
+            }
+            resolver.try_resolve_all().map_err(|_| Stop::Resolve)
+        }
+    }));
+    let models = match front {
+        Ok(Ok(m)) => m,
+        Ok(Err(s)) => return Err(s),
+        Err(_) => return Err(Stop::PanicFront),
+    };
+    let gen = catch_unwind(AssertUnwindSafe(|| {
+        let scope = models.iter().collect::<Vec<_>>();
+        let mut out = Vec::new();
+        for model in &models {
+            let mut generator = RustCodeGenerator::default();
+            if texts.len() == 1 {
+                generator.add_model(model.to_rust());
+            } else {
+                generator.add_model(model.to_rust_with_scope(&scope[..]));
+            }
+            for (file, content) in generator.to_string().unwrap() {
+                out.push((file, content));
+            }
+        }
+        out
+    }));
+    gen.map_err(|_| Stop::PanicGen)
+}
+
+fn fnv(s: &str) -> u64 {
+    let mut h: u64 = 0xcbf29ce484222325;
+    for b in s.as_bytes() {
+        h ^= *b as u64;
+        h = h.wrapping_mul(0x100000001b3);
+    }
+    h
+}
+
+/// end (exclusive) of the attribute `#[...]` starting at `s[0..]`, skipping string literals
+fn attr_end(s: &str) -> Option<usize> {
+    let b = s.as_bytes();
+    if !s.starts_with("#[") {
+        return None;
+    }
+    let mut depth = 0i32;
+    let mut i = 1;
+    let mut in_str = false;
+    while i < b.len() {
+        let c = b[i];
+        if in_str {
+            if c == b'\\' {
+                i += 1;
+            } else if c == b'"' {
+                in_str = false;
+            }
+        } else if c == b'"' {
+            in_str = true;
+        } else if c == b'[' || c == b'(' {
+            depth += 1;
+        } else if c == b']' || c == b')' {
+            depth -= 1;
+            if depth == 0 && c == b']' {
+                return Some(i + 1);
+            }
+        }
+        i += 1;
+    }
     None
+}
+
+fn word(s: &str) -> &str {
+    let end = s
+        .char_indices()
+        .find(|(_, c)| !(c.is_alphanumeric() || *c == '_'))
+        .map(|(i, _)| i)
+        .unwrap_or(s.len());
+    &s[..end]
+}
+
+/// Identifiers the generator emitted, in order of appearance, as `kind:name` tokens:
+/// `u` use path, `c` constant (module level or in an impl), `s` struct, `e` enum, `f` field,
+/// `v` variant.  Line-oriented scan of the `codegen` crate's regular layout; the declarations
+/// only (struct/enum bodies), not the impl blocks that repeat the names.
+pub fn idents(code: &str) -> Vec<String> {
+    let mut out = Vec::new();
+    #[derive(PartialEq)]
+    enum In {
+        Top,
+        Struct,
+        Enum,
+    }
+    let mut state = In::Top;
+    for raw in code.lines() {
+        let indented = raw.starts_with(' ');
+        let mut l = raw.trim();
+        if l.is_empty() {
+            continue;
+        }
+        if !indented {
+            if let Some(rest) = l.strip_prefix("use ") {
+                out.push(format!("u:{}", rest.trim_end_matches(';').replace(' ', "")));
+                continue;
+            }
+            if let Some(rest) = l.strip_prefix("pub const ") {
+                out.push(format!("c:{}", word(rest)));
+                continue;
+            }
+            if let Some(rest) = l.strip_prefix("pub struct ") {
+                out.push(format!("s:{}", word(rest)));
+                state = if l.ends_with('{') { In::Struct } else { In::Top };
+                // tuple struct: `pub struct X(#[asn(..)] pub T);` has no named field
+                continue;
+            }
+            if let Some(rest) = l.strip_prefix("pub enum ") {
+                out.push(format!("e:{}", word(rest)));
+                state = if l.ends_with('{') { In::Enum } else { In::Top };
+                continue;
+            }
+            if l.starts_with('}') {
+                state = In::Top;
+            }
+            continue;
+        }
+        // indented line
+        if state == In::Top {
+            if let Some(rest) = l.strip_prefix("pub const ") {
+                // constants inside `impl X {` written by impl_consts (raw lines, 4 spaces)
+                if raw.starts_with("    pub const ") && !rest.starts_with("fn ") {
+                    out.push(format!("c:{}", word(rest)));
+                }
+            }
+            continue;
+        }
+        while l.starts_with("#[") {
+            match attr_end(l) {
+                Some(e) => l = l[e..].trim_start(),
+                None => break,
+            }
+        }
+        if state == In::Struct {
+            let l = l.strip_prefix("pub ").unwrap_or(l);
+            if let Some(colon) = l.find(':') {
+                out.push(format!("f:{}", l[..colon].trim()));
+            }
+        } else {
+            let end = l.find(|c| c == '(' || c == ',').unwrap_or(l.len());
+            out.push(format!("v:{}", l[..end].trim()));
+        }
+    }
+    out
+}
+
+fn texts_of(tok: &str) -> Option<Vec<String>> {
+    tok.split(':').map(text).collect()
+}
+
+pub fn handle(args: &[&str]) -> Option<String> {
+    Some(match args {
+        ["a.field", h] => okhex(layer_a::rust_field_name(&text(h)?)),
+        ["a.variant", h] => okhex(layer_a::rust_variant_name(&text(h)?)),
+        ["a.type", h] => okhex(layer_a::rust_struct_or_enum_name(&text(h)?)),
+        ["a.const", h] => okhex(layer_a::rust_constant_name(&text(h)?)),
+        ["a.module", h, pad] => okhex(layer_a::rust_module_name(&text(h)?, pbool(pad)?)),
+        ["a.nice", h] => {
+            let mut s = text(h)?;
+            Model::<asn1rs::model::asn::Asn>::make_name_nice(&mut s);
+            okhex(s)
+        }
+        ["b.field", h, chk] => okhex(RustCodeGenerator::rust_field_name(&text(h)?, pbool(chk)?)),
+        ["b.variant", h] => okhex(RustCodeGenerator::rust_variant_name(&text(h)?)),
+        ["b.module", h] => okhex(RustCodeGenerator::rust_module_name(&text(h)?)),
+        // the compositions, through the real pipeline: a one-definition module is generated and
+        // the emitted identifier is read back from the generated text
+        ["emit.field", h] => {
+            let n = text(h)?;
+            let m = format!("M DEFINITIONS AUTOMATIC TAGS ::= BEGIN T ::= SEQUENCE {{ {} BOOLEAN }} END", n);
+            emitted(&m, "f:")?
+        }
+        ["emit.variant", h] => {
+            let n = text(h)?;
+            let m = format!("M DEFINITIONS AUTOMATIC TAGS ::= BEGIN T ::= ENUMERATED {{ {} }} END", n);
+            emitted(&m, "v:")?
+        }
+        ["emit.type", h] => {
+            let n = text(h)?;
+            let m = format!("M DEFINITIONS AUTOMATIC TAGS ::= BEGIN {} ::= SEQUENCE {{ x BOOLEAN }} END", n);
+            emitted(&m, "s:")?
+        }
+        ["emit.const", h] => {
+            let n = text(h)?;
+            let m = format!("M DEFINITIONS AUTOMATIC TAGS ::= BEGIN {} INTEGER ::= 5 END", n);
+            emitted(&m, "c:")?
+        }
+        ["emit.module", h] => {
+            let n = text(h)?;
+            let m = format!("{} DEFINITIONS AUTOMATIC TAGS ::= BEGIN T ::= BOOLEAN END", n);
+            match pipeline(&[m]) {
+                Ok(files) => {
+                    let f = &files.first()?.0;
+                    okhex(f.strip_suffix(".rs")?.to_string())
+                }
+                Err(s) => s.answer(),
+            }
+        }
+        ["emit.inline", hp, hf] => {
+            let (p, f) = (text(hp)?, text(hf)?);
+            let m = format!(
+                "M DEFINITIONS AUTOMATIC TAGS ::= BEGIN {} ::= SEQUENCE {{ {} SEQUENCE {{ x BOOLEAN }} }} END",
+                p, f
+            );
+            // the inline definition is emitted first
+            emitted(&m, "s:")?
+        }
+        ["iskw", h] => {
+            // independent keyword list: syn's identifier parser
+            let n = text(h)?;
+            let shape = {
+                let mut cs = n.chars();
+                matches!(cs.next(), Some(c) if c.is_ascii_alphabetic() || c == '_')
+                    && cs.all(|c| c.is_ascii_alphanumeric() || c == '_')
+            };
+            if !shape || n == "_" {
+                return None;
+            }
+            let is_ident = syn::parse_str::<syn::Ident>(&n).is_ok();
+            okhex(if is_ident { "0" } else { "1" }.to_string())
+        }
+        // an optional third token (the abstract schema the request was rendered from) is for the
+        // check's class predicates only
+        ["gen", toks] | ["gen", toks, _] => match pipeline(&texts_of(toks)?) {
+            Ok(files) => {
+                let mut all = String::new();
+                let mut ids: Vec<String> = Vec::new();
+                for (file, content) in &files {
+                    all.push_str(file);
+                    all.push('\n');
+                    all.push_str(content);
+                    all.push('\n');
+                    ids.push(format!("m:{}", file));
+                    ids.extend(idents(content));
+                }
+                format!("ok {:016x} {}", fnv(&all), ids.join(","))
+            }
+            Err(s) => s.answer(),
+        },
+        // writes the generated files into <dir> (hex of the path); used by the rustc oracle
+        ["emit", toks, dir] => {
+            let dir = std::path::PathBuf::from(text(dir)?);
+            match pipeline(&texts_of(toks)?) {
+                Ok(files) => {
+                    std::fs::create_dir_all(&dir).ok()?;
+                    let mut names = Vec::new();
+                    for (file, content) in &files {
+                        // a file name the generator chose is used as it is, except that it must
+                        // stay inside <dir>
+                        let safe = file.replace('/', "_");
+                        std::fs::write(dir.join(&safe), content).ok()?;
+                        names.push(hex(safe.as_bytes()));
+                    }
+                    format!("ok {}", names.join(","))
+                }
+                Err(s) => s.answer(),
+            }
+        }
+        ["text", toks] => match pipeline(&texts_of(toks)?) {
+            Ok(files) => format!(
+                "ok {}",
+                files.iter().map(|(f, c)| format!("{}:{}", hex(f.as_bytes()), hex(c.as_bytes()))).collect::<Vec<_>>().join(",")
+            ),
+            Err(s) => s.answer(),
+        },
+        _ => return None,
+    })
+}
+
+fn emitted(module: &str, kind: &str) -> Option<String> {
+    Some(match pipeline(&[module.to_string()]) {
+        Ok(files) => {
+            let ids = idents(&files.first()?.1);
+            match ids.iter().find(|i| i.starts_with(kind)) {
+                Some(i) => okhex(i[kind.len()..].to_string()),
+                None => "err not-emitted".to_string(),
+            }
+        }
+        Err(s) => s.answer(),
+    })
 }
